@@ -6,7 +6,10 @@ use crate::base_packet::{
     MCTPMessageBody, MCTPMessageBodyHeader, MCTPTransportHeader, MessageType,
 };
 use crate::control_packet::CommandCode;
-use crate::smbus_proto::{HDR_VERSION, MCTP_SMBUS_COMMAND_CODE, MCTPSMBusHeader, MCTPSMBusPacket};
+use crate::smbus_proto::{
+    HDR_VERSION, MCTP_SMBUS_COMMAND_CODE, MCTP_SMBUS_MAX_PACKET_LEN, MCTPSMBusHeader,
+    MCTPSMBusPacket,
+};
 
 /// The standard trait for all MCTP headers
 pub(crate) trait MCTPHeader {
@@ -145,6 +148,10 @@ pub trait SMBusMCTPRequestResponse {
 
         let packet = MCTPSMBusPacket::new(&mut smbus_header, &base_header, &body);
 
+        if packet.len() > MCTP_SMBUS_MAX_PACKET_LEN {
+            return Err(());
+        }
+
         Ok(packet.to_raw_bytes(buf))
     }
 
@@ -165,6 +172,10 @@ pub trait SMBusMCTPRequestResponse {
         let body = MCTPMessageBody::new(&header, *message_header, message_data, None);
 
         let packet = MCTPSMBusPacket::new(&mut smbus_header, &base_header, &body);
+
+        if packet.len() > MCTP_SMBUS_MAX_PACKET_LEN {
+            return Err(());
+        }
 
         Ok(packet.to_raw_bytes(buf))
     }
@@ -188,6 +199,10 @@ pub trait SMBusMCTPRequestResponse {
 
         let packet = MCTPSMBusPacket::new(&mut smbus_header, &base_header, &body);
 
+        if packet.len() > MCTP_SMBUS_MAX_PACKET_LEN {
+            return Err(());
+        }
+
         Ok(packet.to_raw_bytes(buf))
     }
 
@@ -208,6 +223,10 @@ pub trait SMBusMCTPRequestResponse {
         let body = MCTPMessageBody::new(&header, *message_header, message_data, None);
 
         let packet = MCTPSMBusPacket::new(&mut smbus_header, &base_header, &body);
+
+        if packet.len() > MCTP_SMBUS_MAX_PACKET_LEN {
+            return Err(());
+        }
 
         Ok(packet.to_raw_bytes(buf))
     }
